@@ -30,7 +30,7 @@ from ..exc import EscapeAnalysis, ExcModel
 from ..loader import AnalysisError, ClassInfo, FunctionInfo, walk_scope
 from ..resolve import last_attr
 from ..util import calls, cond_conjuncts, impl_invocations, in_body, is_none_test, mini_eval, one, some
-from ._g4_helpers import ReleaseFlow, bind_args, live_exc_pred, txt
+from ._g4_helpers import ReleaseFlow, bind_args, live_exc_pred, txt, require_count
 
 META = {
     "text": "RF-PAIR: release-obligation typestate dataflow over the CFG for every value produced by resolve_shm_batch (and, by fixpoint, by "
@@ -132,6 +132,7 @@ def _witness(flow: ReleaseFlow, var: str, exit_id: int, live) -> tuple[list[int]
     cfg = flow.cfg
     st = flow.state
     prev: dict[int, int | None] = {}
+    via_exc: dict[int, bool] = {}
     dq: deque[int] = deque()
     starts = [n.id for n in cfg.nodes if n.kind == "done" and isinstance(n.stmt, (ast.Assign, ast.AnnAssign))
               and any(isinstance(x, ast.Name) and x.id == var and isinstance(x.ctx, ast.Store) for x in ast.walk(n.stmt)) and any(var in (st[s] or ()) for s in cfg.succ[n.id])]
@@ -142,14 +143,16 @@ def _witness(flow: ReleaseFlow, var: str, exit_id: int, live) -> tuple[list[int]
         u = dq.popleft()
         if u == exit_id:
             break
-        for v in cfg.succ[u]:
-            if v in prev or var not in (st[v] or ()):
-                continue
+        for v0 in cfg.succ[u]:
             node = cfg.nodes[u]
-            if cfg.label.get((u, v)) == "exc" and node.kind in ("attempt", "test", "loop") and node.stmt is not None and not live(node.stmt):
+            if cfg.label.get((u, v0)) == "exc" and node.kind in ("attempt", "test", "loop") and node.stmt is not None and not live(node.stmt):
                 continue
-            prev[v] = u
-            dq.append(v)
+            for v in flow.routed.get((u, v0), {v0}):
+                if v in prev or var not in (st[v] or ()):
+                    continue
+                prev[v] = u
+                via_exc[v] = cfg.label.get((u, v0)) == "exc"
+                dq.append(v)
     if exit_id not in prev:
         return [], None
     path = []
@@ -160,7 +163,7 @@ def _witness(flow: ReleaseFlow, var: str, exit_id: int, live) -> tuple[list[int]
     path.reverse()
     first_exc = None
     for a, b in zip(path, path[1:]):
-        if cfg.label.get((a, b)) == "exc" and cfg.nodes[a].stmt is not None and cfg.nodes[a].kind in ("attempt", "test", "loop", "raise"):
+        if via_exc.get(b) and cfg.nodes[a].stmt is not None and cfg.nodes[a].kind in ("attempt", "test", "loop", "raise"):
             first_exc = cfg.nodes[a].stmt
             break
     return path, first_exc
@@ -303,7 +306,7 @@ def _pair_rule(ctx: Ctx, model: ExcModel) -> dict[str, ReleaseFlow]:
                     continue
                 seen_keys.add(key)
                 ctx.fail("RF-PAIR", key, fi, node, detail, path=path)
-    ctx.require_count("RF-PAIR", n_sites, 3, "live shm-resolution sites")
+    require_count(ctx, "RF-PAIR", n_sites, 3, "live shm-resolution sites")
     return flows
 
 
@@ -532,7 +535,7 @@ def _table_rules(ctx: Ctx, flows: dict[str, ReleaseFlow]) -> None:
                 ctx.check(ok, "RF-TABLE", f"pointer-written-with-metadata:{fi.qualname}", fi, asg,
                           ok="whenever maybe_write_to_shm returned pointer metadata, the batch is written with that metadata",
                           bad="a path writes the batch returned by maybe_write_to_shm without its pointer metadata: the peer receives an empty batch instead of the data")
-    ctx.require_count("RF-TABLE", n_send, 3, "send sites of maybe_write_to_shm")
+    require_count(ctx, "RF-TABLE", n_send, 3, "send sites of maybe_write_to_shm")
 
     # -- AnnotatedBatch.release invokes the callback
     rel = ctx.fn("vgi_rpc/rpc/_types.py:AnnotatedBatch.release")
